@@ -71,8 +71,7 @@ def parseOp (line : String) : Option Op :=
 
 /-- memory holding the given values at the pixels of the views -/
 def memOf (l : List (View × List Nat)) : Mem :=
-  let tbl : List (Int × Nat) := l.flatMap (fun p => (specAddrs p.1).zip p.2)
-  fun a => match tbl.find? (fun e => e.1 == a) with | some e => e.2 | none => 0
+  ⟨l.flatMap (fun p => (specAddrs p.1).zip p.2)⟩
 
 /-- pixel equality of an organisation on encoded values: rgb32f compares three floats from the table
     [0.0, -0.0, 0.25, 0.5, 1.0, 0.75, 0.125, NaN] with IEEE ==; everything else compares the integers -/
@@ -84,7 +83,7 @@ def pixEq (org : String) (a b : Nat) : Bool :=
 
 def grayToRgb (v : Nat) : Nat := v + 256 * v + 65536 * v
 
-def showVals (m : Mem) (d : View) : String := String.join ((specAddrs d).map (fun a => " " ++ toString (m a)))
+def showVals (m : Mem) (d : View) : String := String.join ((specAddrs d).map (fun a => " " ++ toString (m.get a)))
 
 def model (line : String) : String :=
   match parseOp line with
@@ -105,7 +104,7 @@ def model (line : String) : String :=
     | "foreach" | "foreachpos" =>
       -- for_each_pixel(_position): the functor sees the pixels in the traversal order of the code and adds `arg`
       let order := if o.alg == "foreach" then implFillAddrs o.d else specAddrs o.d
-      let (m, log) := order.foldl (fun (acc : Mem × List Nat) a => (acc.1.set a ((acc.1 a + o.arg) % R), acc.1 a :: acc.2)) (m0, [])
+      let (m, log) := order.foldl (fun (acc : Mem × List Nat) a => (acc.1.set a ((acc.1.get a + o.arg) % R), acc.1.get a :: acc.2)) (m0, [])
       fin (" log=" ++ ",".intercalate (log.reverse.map toString)) m
     | "generate" => fin "" (implGenerate m0 o.d (fun k => (o.arg + k) % R))
     | "tr1" | "trpos" => fin "" (implTransform m0 o.s o.d (fun v => (v * 3 + o.arg) % R))
